@@ -537,10 +537,15 @@ async fn stream_client(exec: Exec, led: Led, listener: SimListener, client: usiz
             }
             if mode == 2 {
                 // Windowed: wait until the server's queue has room.
-                let mut waited = 0;
+                // (Back off: a stalled connection costs a few hundred
+                // wake-ups, not tens of thousands.)
+                let mut waited = 0u64;
+                let mut rounds = 0u32;
                 while st.borrow().outstanding.len() >= knobs.max_queued.max(1) && !st.borrow().eof && waited < 20_000 {
-                    sim::sleep_ms(1).await;
-                    waited += 1;
+                    let d = 1u64 << (rounds / 4).min(6);
+                    sim::sleep_ms(d).await;
+                    waited += d;
+                    rounds += 1;
                 }
             }
             let ask = gen_ask(k, false);
